@@ -12,6 +12,8 @@ import (
 	jschema "github.com/jsightapi/jsight-schema-go-library"
 	jerr "github.com/jsightapi/jsight-schema-go-library/errors"
 	fjson "github.com/jsightapi/jsight-schema-go-library/formats/json"
+	"github.com/jsightapi/jsight-schema-go-library/fs"
+	"github.com/jsightapi/jsight-schema-go-library/kit"
 	js "github.com/jsightapi/jsight-schema-go-library/notations/jschema"
 	"github.com/jsightapi/jsight-schema-go-library/notations/regex"
 	"github.com/jsightapi/jsight-schema-go-library/rules/enum"
@@ -21,13 +23,41 @@ import (
 //
 //	ok | L<code>@<pos>  library error with position inside the source |  V<code> library validation error without position
 //	BADPOS(<code>@<pos>/<len>) | FOREIGN(<type>) | ERRORPANIC(<code>: <panic>)  -- violations of C07
-func classify(err error, srcLen int) string {
+func classify(err error, srcLen int) (res string) {
 	if err == nil {
 		return "ok"
 	}
 	if errors.Is(err, io.EOF) {
 		return "eof"
 	}
+	// the kit's converter (kit.ConvertError, the SDK entry point for callers that want code / position / file) must give the
+	// code and position of the library error, also when AddType wrapped it with fmt.Errorf("...: %w", libErr)
+	orig := err
+	defer func() {
+		if strings.HasPrefix(res, "L") || strings.HasPrefix(res, "V") {
+			func() {
+				defer func() {
+					if r := recover(); r != nil {
+						res = fmt.Sprintf("KITPANIC(%v)", r)
+					}
+				}()
+				k := kit.ConvertError(fs.NewFile("caller-file", []byte("x")), orig)
+				var wantCode int
+				var wantPos uint
+				if e, ok := err.(interface{ ErrCode() int }); ok {
+					wantCode = e.ErrCode()
+				} else if e, ok := err.(interface{ Code() jerr.ErrorCode }); ok {
+					wantCode = int(e.Code())
+				}
+				if p, ok := err.(interface{ Position() uint }); ok {
+					wantPos = p.Position()
+				}
+				if k.ErrCode() != wantCode || k.Position() != wantPos {
+					res = fmt.Sprintf("KITLOSS(%d@%d->%d@%d)", wantCode, wantPos, k.ErrCode(), k.Position())
+				}
+			}()
+		}
+	}()
 	// fmt.Errorf("...: %w", libErr) wrappers (AddType) expose the library error through errors.Unwrap
 	for i := 0; i < 8; i++ {
 		if _, ok := err.(interface{ ErrCode() int }); ok {
